@@ -329,6 +329,9 @@ func runC01(r *core.Run) {
 			return core.Outcome{Class: c.Layout, Nontrivial: c.Len >= 2, Evals: 3}
 		})
 
+	interleavedReadersFor(r, []string{"fasta"})
+	bigFiles(r, "fasta", []int{0})
+
 	r.Bound("marked-offsets", "a long name or sequence (8300 bytes: every offset; 70000 bytes: offsets 0..3, 4090..4100, 65530..65540, last 3) with ONE byte of the format's vocabulary ('>', ';' quick; thorough also ' ', TAB, '@', '+', 0x00, 0xFF) at that offset; followed by a second record")
 	core.Clause(r, "marked-offsets", core.Opts{Rule: "a format-vocabulary byte at EVERY offset of a long name (names may hold '>') and of a long sequence (never '>'), so that it meets every internal buffer boundary of the reader; written with Write, read back, second record must follow unshifted; non-trivial = all"},
 		func(emit func(c01Mark) bool) {
